@@ -105,7 +105,7 @@ class euler(base.model):
 
     @_vardict.register()
     def enthalpy(self, qdata):
-        return (qdata[2]-0.5*qdata[1]**2/qdata[0])*self.gamma/qdata[0]
+        return (qdata[2]-self.kinetic_energy(qdata))*self.gamma/qdata[0]
 
     @_vardict.register()
     def ptot(self, qdata):
